@@ -313,3 +313,38 @@ Definition holds_gets (g : geom) (excl : bool) (ops : list oop) (r : list Z * li
   | o0 :: os => holds_getters g excl env0 o0 && out_eqb (go_pos o0) (Ok (g_n0 g * g_tlen g + g_off0 g)) && holds_gets_from g excl env0 o0 ops os
   | [] => false
   end.
+
+(* ---- claim + commit: the one BufferClaim a history holds ----
+   An accepted try_claim hands out the frame [off, off + required) of the active partition; commit() and abort() may change
+   words of that frame only (commit: the payload the caller wrote and the length word; abort: the type and the length word),
+   and nothing at all when no claim was ever accepted. *)
+Definition claim_of (g : geom) (cl : option (Z * Z * Z)) (o : oop) (p c : obs) : option (Z * Z * Z) :=
+  match o with
+  | OAppend KClaim len =>
+      match o_res c, o_pos p with
+      | Ok _, Ok b => Some (active (o_dump p), pos_off g (o_dump p) b, required g len)
+      | _, _ => cl
+      end
+  | _ => cl
+  end.
+
+Definition claim_words (cl : option (Z * Z * Z)) (dc : dump) : bool :=
+  match cl with
+  | None => no_words dc
+  | Some (i, off, req) =>
+      forallb (fun w => (off <=? fst w) && (fst w <? off + req)) (d_part dc i) &&
+      words_eqb (d_part dc ((i + 1) mod 3)) [] && words_eqb (d_part dc ((i + 2) mod 3)) []
+  end.
+
+Fixpoint holds_claims_from (g : geom) (cl : option (Z * Z * Z)) (p : obs) (ops : list oop) (os : list obs) : bool :=
+  match ops, os with
+  | [], [] => true
+  | o :: ops', c :: os' =>
+      (match o with OCommit | OAbort => claim_words cl (o_dump c) | _ => true end) &&
+      holds_claims_from g (claim_of g cl o p c) c ops' os'
+  | _, _ => false
+  end.
+
+(* the history predicate with the claim rule added *)
+Definition holds_history2 (g : geom) (ops : list oop) (os : list obs) : bool :=
+  holds_history g ops os && holds_claims_from g None (obs0 g) ops os.
